@@ -518,6 +518,8 @@ def run_cases(cases, impl_bin, kind_env=None, workers=16, timeout=20, model_work
             c.dir = d
             reqs.append('clearfiles')
             if c.tool == 'basic':
+                if c.dest:
+                    os.makedirs(os.path.join(d, c.dest), exist_ok=True)
                 for name, content in c.files.items():
                     p = os.path.join(d, name)
                     with open(p, 'wb') as f:
